@@ -163,6 +163,13 @@ def special_types():
         union("Union0", [], PKG),
         union("Union1", [field("only", S)], PKG),
         union("Union3", [field("unknown", S), field("obj", R("Obj")), field("maybe", opt(I))], PKG),
+        # single-member unions holding doubles (the derived order reads the discriminant of a
+        # one-variant enum too): bare, in a list, inside a payload larger than the Unknown variant
+        union("UnionD1", [field("only", D)], PKG),
+        union("UnionD1List", [field("xs", lst(D))], PKG),
+        obj("BigD", [field("a", D), field("b", S), field("c", lst(D)), field("d", opt(D)), field("e", mp(S, D)), field("f", I), field("g", S), field("h", opt(S))], PKG),
+        union("UnionD1Big", [field("big", R("BigD"))], PKG),
+        union("UnionD2", [field("x", D), field("y", lst(opt(D)))], PKG),
     ]
     idx = [(x[x["type"]]["typeName"]["name"], x["type"], None) for x in t]
     return t, idx
